@@ -48,7 +48,24 @@ Theorem C06_script_variants_nodup : forall names, Forall (fun n => snake_class n
   NoDup (map script_field names).
 Proof. exact script_variants_nodup. Qed.
 
-(* "a_b" / "a_B"  (finding F3) *)
+(* after fix_variant_collision, ImplWork::get_methods checks the variants of one model: on legal method names the result is a
+   duplicate-free list of variants (one per method, in order) OR a diagnostic naming two methods, the first strictly before
+   the second in the impl, that are mangled to the same variant; never a panic, never a duplicate variant *)
+Theorem C06_script_variants_nodup_or_diag : forall names, Forall (fun n => legal_input n = true) names ->
+  match script_variants names with
+  | VOk vs => NoDup vs /\ map Ok vs = map script_field names
+  | VDiag a b => exists l1 l2, names = (l1 ++ b :: l2)%list /\ In a l1 /\ script_field a = script_field b
+  | VPanic => False
+  end.
+Proof. exact script_variants_nodup_or_diag. Qed.
+
+(* the diagnostic is never raised against distinct lower_snake_case names *)
+Theorem C06_script_variants_ok_on_snake_class : forall names,
+  Forall (fun n => legal_input n = true) names -> Forall (fun n => snake_class n = true) names -> NoDup names ->
+  exists vs, script_variants names = VOk vs /\ NoDup vs.
+Proof. exact script_variants_ok_on_snake_class. Qed.
+
+(* "a_b" / "a_B"  (F3: the mangling itself stays non-injective; the clash is now reported, see above) *)
 Theorem C06_script_field_injective_refuted :
   exists a b, legal_input a = true /\ legal_input b = true /\ a <> b /\ script_field a = script_field b.
 Proof. exact script_field_injective_refuted. Qed.
@@ -82,6 +99,23 @@ Theorem C06_phantom_fields_in_declaration_order : forall self_ty params ms,
   (full ms = false -> mg_private g = map gp_name (filter (fun p => mem_name (gp_name p) (unused params self_ty ms)) params)).
 Proof. exact phantom_fields_in_declaration_order. Qed.
 
+(* where-predicates of the impl (after fix_where_private_generic): the split onto Script impl / direct+play does not depend on the
+   map order, loses no predicate, and a predicate follows the private parameters exactly when it mentions one *)
+Theorem C06_where_preds_spec : forall self_ty params ms hm0 preds, Permutation hm0 (filter nonconst params) ->
+  impl_private_preds params self_ty hm0 ms preds = spec_private_preds params self_ty ms preds /\
+  impl_script_preds params self_ty hm0 ms preds = spec_script_preds params self_ty ms preds.
+Proof. exact where_preds_spec. Qed.
+
+Theorem C06_where_preds_none_lost : forall self_ty params ms preds wp, In wp preds ->
+  (In wp (spec_private_preds params self_ty ms preds) /\ ~ In wp (spec_script_preds params self_ty ms preds)) \/
+  (In wp (spec_script_preds params self_ty ms preds) /\ ~ In wp (spec_private_preds params self_ty ms preds)).
+Proof. exact where_preds_none_lost. Qed.
+
+Theorem C06_where_pred_private_iff : forall self_ty params ms preds wp, full ms = false ->
+  (In wp (spec_private_preds params self_ty ms preds) <->
+   In wp preds /\ exists p, In p (unused params self_ty ms) /\ includes wp p = true).
+Proof. exact where_pred_private_iff. Qed.
+
 (* a `Self` in the signature of a selected &self / &mut self method without own generics is a use of every parameter named by the
    impl's self type: that parameter is never private (no PhantomData field) and is a parameter of the Script enum *)
 Theorem C06_self_counts_as_use : forall self_ty params ms m p,
@@ -109,6 +143,11 @@ Print Assumptions C06_combined_ident_total.
 Print Assumptions C06_combined_ident_internal_error_iff_empty.
 Print Assumptions C06_script_field_injective_guarded.
 Print Assumptions C06_script_variants_nodup.
+Print Assumptions C06_script_variants_nodup_or_diag.
+Print Assumptions C06_script_variants_ok_on_snake_class.
+Print Assumptions C06_where_preds_spec.
+Print Assumptions C06_where_preds_none_lost.
+Print Assumptions C06_where_pred_private_iff.
 Print Assumptions C06_script_field_injective_refuted.
 Print Assumptions C06_script_field_injective_refuted_lowercase.
 Print Assumptions C06_combined_ident_injective_refuted.
